@@ -148,6 +148,11 @@ func c06StatusKept(res *vlib.Result, ca, sa security.SecurityLevel, methods []se
 }
 
 func c06StatusCases(yield func(vlib.Case)) {
+	yield(vlib.Case{ID: "inherited-items", Run: func() *vlib.Result {
+		res := &vlib.Result{}
+		c06InheritedKeyless(res)
+		return res
+	}})
 	yield(vlib.Case{ID: "resumed-status", Run: func() *vlib.Result {
 		res := &vlib.Result{}
 		for _, ms := range [][]security.AuthMethod{{mCTB}, {mTOK, mCTB}, {security.AuthFS, mCTB}} {
@@ -159,4 +164,52 @@ func c06StatusCases(yield func(vlib.Case)) {
 		}
 		return res
 	}})
+}
+
+// c06InheritedKeyless: sessions handed down by a parent daemon (CONDOR_PRIVATE_INHERIT items).
+// An item without key material - or with a key of every short length - either is not registered
+// at all, or yields a session that a requester who knows only the identifier cannot resume:
+// "a session without a key is never resumed".
+func c06InheritedKeyless(res *vlib.Result) {
+	info := `[CryptoMethods="AESGCM";Encryption="YES";ValidCommands="5";]`
+	for _, kind := range []string{"SessionKey", "FamilySessionKey"} {
+		for _, key := range []string{"", "k", "0123456789abcdef0123456789abcdef"} {
+			res.Evals++
+			sid := fmt.Sprintf("inh-%s-%d", kind, len(key))
+			item := fmt.Sprintf("%s:%s#%s#%s", kind, sid, info, key)
+			id := fmt.Sprintf("inherited item %s with a %d-byte key", kind, len(key))
+			sessions := security.ParseCondorPrivateInherit(item)
+			srvCache := security.NewSessionCache()
+			registered := 0
+			for _, s := range sessions {
+				e, err := security.CreateNonNegotiatedSession(s, "<10.7.7.7:9618>")
+				if err != nil || e == nil {
+					continue
+				}
+				srvCache.Store(e)
+				registered++
+			}
+			if registered == 0 {
+				if key != "" {
+					res.Violate("C06/inherited/keyed-item-not-registered", "%s: not registered", id)
+				}
+				res.Outcome("inherited-item-refused")
+				continue
+			}
+			res.Nontrivial++
+			// a requester that knows only the identifier
+			obs := &c06Obs{}
+			sc := baseCfg(security.SecurityOptional, security.SecurityOptional, nil, []security.CryptoMethod{security.CryptoAES}, true)
+			sc.SessionCache = srvCache
+			r := hsRun(hsOpts{ServerCfg: sc, App: true, ClientScript: c06Requester(c06Req{sid: sid, keyKind: "none", reply: true, addr: hsClientAddr, label: "inherited"}, obs)})
+			res.Transitions++
+			if key == "" && r.S.Err == nil && r.S.Resumed {
+				res.Violate("C06/resumed-keyless-session/inherited-item-without-key", "%s: the item was registered and the session resumed for a requester that knows only its identifier (identity %q, application data accepted: %q)", id, r.S.Neg.User, trunc(r.S.AppGot))
+			}
+			if len(r.S.AppGot) > 0 {
+				res.Violate("C06/app-data-accepted/requester-without-key/inherited", "%s: server accepted %q from a requester without the key", id, trunc(r.S.AppGot))
+			}
+			res.Outcome(fmt.Sprintf("inherited-item-registered-key=%d", len(key)))
+		}
+	}
 }
